@@ -144,3 +144,35 @@ def definite(desc, node=None, abstract=None):
 def soft(desc, node=None, abstract=None):
     """The abstract state is too weak to decide the obligation on this path (never a refutation)."""
     return Failure(desc, node=node, neg=None, soft=True, abstract=abstract)
+
+
+def iterations(p, loop=None, func=None):
+    """Loop iterations on a path in either mode -> [(first_seq, last_seq, start_state, end_state, head_event)]
+    where the states map ('local'|'attr'|'start'|'file', name) -> IntV | Lin."""
+    out = []
+    evs = p.events
+    heads = [e for e in evs if e.kind == 'loop-head' and (loop is None or e.node is loop) and (func is None or e.func == func)]
+    backs = [e for e in evs if e.kind == 'loop-back' and (loop is None or e.node is loop) and (func is None or e.func == func)]
+    for h in heads:
+        b = next((x for x in backs if x.node is h.node and x.seq > h.seq), None)
+        if b is None:
+            continue
+        start = {k: v for k, v in h.data['gen'].items()}
+        end = {k: v for k, v in b.data['post'].items()}
+        for fid, (f, pos) in h.data.get('files', {}).items():
+            start[('file', f.name)] = pos
+        for fid, (f, pos) in b.data.get('files', {}).items():
+            end[('file', f.name)] = pos
+        out.append((h.seq, b.seq, start, end, h))
+    its = [e for e in evs if e.kind == 'loop-iter' and 'snap' in e.data and (loop is None or e.node is loop)
+           and (func is None or e.func == func)]
+    ends = [e for e in evs if e.kind == 'loop-end-snap' and (loop is None or e.node is loop)
+            and (func is None or e.func == func)]
+    for i, e in enumerate(its):
+        nxt = next((x for x in its[i + 1:] if x.node is e.node), None)
+        if nxt is None:
+            nxt = next((x for x in ends if x.node is e.node and x.seq > e.seq), None)
+        if nxt is None:
+            continue
+        out.append((e.seq, nxt.seq, e.data['snap'], nxt.data['snap'], e))
+    return out
